@@ -241,6 +241,13 @@ def main(tier, seed):
     r = random.Random(seed)
     pair = Pair()
     try:
+        # the crate's FixedBitfield / DynamicBitfield themselves (crate-private, reached through the verif-hooks feature) against the
+        # word-level model FixedWords.v and against the set-of-indices specification, on random operation scripts
+        import bwx
+        for v in bwx.crosscheck(pair.impl, pair.model, res, r, tier, klass):
+            res.violations.append(v)
+        res.add_case(("bitfield-word-scripts",), True, sample="bwx <random get/set/set_range/index_of/last_index_of/to_bytes/from_data/open/flush script>: "
+                     "FixedBitfield and DynamicBitfield of the crate vs FixedWords.v vs the set-of-indices specification")
         cases = [("big-writer", lambda: big_writer(pair, res, [9000, 25000] if tier == "quick" else [9000, 25000, 33000], r)),
                  ("sparse-replica", lambda: sparse_replica(pair, res, 34000 if tier == "quick" else 70000, r)),
                  ("full-page-writer", lambda: full_page_writer(pair, res, r)),
@@ -263,13 +270,6 @@ def main(tier, seed):
             res.disagreements.extend(pair.disagreements[:2]); pair.disagreements = []
             if len(res.violations) >= 4:
                 break
-        # the crate's FixedBitfield / DynamicBitfield themselves (crate-private, reached through the verif-hooks feature) against the
-        # word-level model FixedWords.v and against the set-of-indices specification, on random operation scripts
-        import bwx
-        for v in bwx.crosscheck(pair.impl, pair.model, res, r, tier, klass):
-            res.violations.append(v)
-        res.add_case(("bitfield-word-scripts",), True, sample="bwx <random get/set/set_range/index_of/last_index_of/to_bytes/from_data/open/flush script>: "
-                     "FixedBitfield and DynamicBitfield of the crate vs FixedWords.v vs the set-of-indices specification")
         res.extra["commands_compared"] = pair.ncmp
     finally:
         pair.close()
